@@ -295,6 +295,20 @@ def explore(prop, tier, seed, budget, fixed_runs, nworkers, quiet=False):
                         if len({x[0] for x in violations}) >= 3:
                             stop_new = True
         t_explore = time.time()
+        # late repetition: the first runs once more, now that every worker has
+        # hundreds of other runs behind it - state leaking from one run into
+        # the next (module-level caches in the code under test) shows up here
+        late = {}
+        for (rs, h), v in sorted(det.items())[:24]:
+            late[pool.submit(h, {'cmd': 'run', 'prop': prop, 'seed': rs,
+                                 'tier': tier})] = (rs, h)
+        while late and pool.inflight:
+            r = pool.get(timeout=JOB_WAIT)
+            key = late.pop(r['id'], None)
+            if key is None or 'error' in r:
+                continue
+            det[key].append((r['events'], r['outcome'],
+                             len(r['violations'])))
         # determinism self-test verdict
         nondet = [k for k, v in det.items() if len(set(v)) > 1]
         agg.determinism = {
